@@ -161,6 +161,10 @@ func c13ModelTail(r *h.Result, rng *h.Rng, tails, ticks int) error {
 				}
 			}
 			r.Count(fmt.Sprintf("model-tail:tick=%d", k))
+			if k > 0 && t.From < o.ticks[k-1].From {
+				r.Violate("C13/tail/window-moves-back", fmt.Sprintf("tail tick %d reads from %d, before the %d of the tick before it", k, t.From, o.ticks[k-1].From),
+					map[string]any{"stream": "model-tail", "query": o.query, "ticks": o.ticks})
+			}
 			if t.To <= t.From || t.To > time.Now().UnixNano() || t.To < o.start.UnixNano() {
 				r.Violate("C13/tail/window-end", fmt.Sprintf("tail tick %d reads up to %d, not a moment between the start of the tail and now", k, t.To),
 					map[string]any{"stream": "model-tail", "query": o.query, "ticks": o.ticks})
